@@ -6,6 +6,7 @@
    where sy is the current y-scale and osy the one of the last full
    recomputation.  Needs, beyond the order laws, that the width of a box grows
    with the box ([SubLaws]); scalar outputs. *)
+From Coq Require Import ZArith Lia.
 From AV Require Import Base.Prelude Model.L1D Proofs.L1DOrder Proofs.L1DMaps Proofs.L1DStruct
   Proofs.L1DLoss Proofs.L1DValues Proofs.L1DBatch.
 Set Implicit Arguments.
@@ -188,3 +189,11 @@ Section Bracket.
     rewrite Hval, Hg. reflexivity.
   Qed.
 End Bracket.
+
+(* the width laws are inhabited: integers *)
+Lemma SubLaws_Z : SubLaws Z.sub Z.ltb 0%Z.
+Proof.
+  constructor; unfold L1DValues.le.
+  - intros a a' b b' H1 H2. apply Z.ltb_ge in H1, H2. apply Z.ltb_ge. lia.
+  - intros a b H. apply Z.ltb_ge in H. apply Z.ltb_ge. lia.
+Qed.
